@@ -182,13 +182,18 @@ def _sym_stream(code):
         if kind in ("jabs", "jrel"):
             v = ("->", idx.get(val, ("mid-instruction", val)))
         elif kind == "const":
-            v = ("code", val.co_name, val.co_firstlineno) if isinstance(val, types.CodeType) else oracle.const_repr(val)
+            v = ("code", val.co_name, val.co_firstlineno, _digest(_sym_stream(val))) if isinstance(val, types.CodeType) else oracle.const_repr(val)
         elif kind == "noarg":
             v = None
         else:
             v = val
         out.append((opname, kind, v, lines.get(off)))
     return out
+
+
+def _digest(x):
+    import hashlib
+    return hashlib.md5(repr(x).encode()).hexdigest()[:12]
 
 
 _NESTED, _NOFREE = inspect.CO_NESTED, inspect.CO_NOFREE
@@ -261,6 +266,9 @@ C05_PROGRAMS = [
     "def fn():\n    return 7\n    def dead():\n        pass\nprint(fn())\n",
     "raise SystemError('top-level failure')\n",
     "nan = 1e999 - 1e999\nprint(nan != nan, (1e999, -1e999))\n",
+    "fs = (lambda x: x - 1, lambda x: x + 1, lambda x: x * 2)\nprint([f(3) for f in fs])\n",
+    "r = [a for a in range(2)] + [a * 2 for a in range(2)]\nprint(r, [(lambda: 1)(), (lambda: 2)()])\n",
+    "a = (0.0, -0.0, (1, 2), (1.0, 2.0), (True, False), (1, 0))\nprint(a, [type(x).__name__ for t in a[2:] for x in t])\n",
 ]
 
 
@@ -287,7 +295,8 @@ def _run_traced(code):
         finally:
             sys.settrace(old)
     keys = sorted(k for k in ns if not k.startswith("__"))
-    simple = {k: repr(ns[k]) for k in keys if isinstance(ns[k], (int, float, str, bytes, tuple, list, dict, set, type(None), bool))}
+    import re
+    simple = {k: re.sub(r" at 0x[0-9a-f]+", "", repr(ns[k])) for k in keys if isinstance(ns[k], (int, float, str, bytes, tuple, list, dict, set, type(None), bool))}
     return buf.getvalue(), exc, events, keys, simple
 
 
@@ -381,6 +390,8 @@ def _permuted_variants(code, rnd):
         return list(range(fixed)) + idx
     for trial in range(2):
         pn, pc, pv = perm(len(code.co_names), 0), perm(len(code.co_consts), 1), perm(len(code.co_varnames), npar)
+        pcell = perm(len(code.co_cellvars), 0)
+        ncell = len(code.co_cellvars)
         b2 = bytearray(bc)
         for i in range(0, len(b2), 2):
             op = b2[i]
@@ -390,6 +401,8 @@ def _permuted_variants(code, rnd):
                 b2[i + 1] = pc[b2[i + 1]]
             elif op in dis.haslocal:
                 b2[i + 1] = pv[b2[i + 1]]
+            elif op in dis.hasfree and b2[i + 1] < ncell:
+                b2[i + 1] = pcell[b2[i + 1]]
 
         def apply(t, p):
             out = [None] * len(t)
@@ -397,8 +410,9 @@ def _permuted_variants(code, rnd):
                 out[p[i]] = v
             return tuple(out)
         names, consts, varnames = apply(code.co_names, pn), apply(code.co_consts, pc), apply(code.co_varnames, pv)
-        yield "permuted%d" % trial, code_replace(code, co_code=bytes(b2), co_names=names, co_consts=consts, co_varnames=varnames)
-        yield "permuted+padded%d" % trial, code_replace(code, co_code=bytes(b2), co_names=names + ("__pad_name__",), co_consts=consts + (987654321, "pad"),
+        cellvars = apply(code.co_cellvars, pcell)
+        yield "permuted%d" % trial, code_replace(code, co_code=bytes(b2), co_names=names, co_consts=consts, co_varnames=varnames, co_cellvars=cellvars)
+        yield "permuted+padded%d" % trial, code_replace(code, co_code=bytes(b2), co_names=names + ("__pad_name__",), co_consts=consts + (987654321, "pad"), co_cellvars=cellvars,
                                                          co_varnames=varnames + (("__pad_local__",) if code.co_flags & inspect.CO_OPTIMIZED else ()),
                                                          co_nlocals=len(varnames) + (1 if code.co_flags & inspect.CO_OPTIMIZED else 0))
     yield "nested-flag", code_replace(code, co_flags=code.co_flags ^ inspect.CO_NESTED)
